@@ -86,9 +86,9 @@ def wrap(header, stmts, macros=()):
 
 
 # ---------------------------------------------------------------- generators
-def ref_cases():
-    for size in (1, 2, 3):
-        ints = sorted({-2, -1, 0, size - 1, size, size + 1})
+def ref_cases(tier="quick"):
+    for size in ((1, 2, 3) if tier == "quick" else (1, 2, 3, 4, 5)):
+        ints = sorted({-2, -1, 0, size - 1, size, size + 1} | (set() if tier == "quick" else {-3, 1, size - 2, size + 2, 2 * size}))
         nums = ints + [0.5, 1.0]
         R = ("register", "q", size)
         # positions: name -> (header builder(valueexpr), statement builder(valueexpr), in_body)
@@ -242,8 +242,8 @@ def reload_cases():
             yield ("reload:%s->%s:%s" % (v1, v2, sname), wrap((R,), (st,)), (), "parse", "reload:%s:%s" % (v1, v2))
 
 
-def all_cases_list():
-    return itertools.chain(ref_cases(), kind_cases(), name_cases(), gate_cases(), reload_cases())
+def all_cases_list(tier="quick"):
+    return itertools.chain(ref_cases(tier), kind_cases(), name_cases(), gate_cases(), reload_cases())
 
 
 # ---------------------------------------------------------------- the pipeline
@@ -306,12 +306,13 @@ class C14(Check):
     )
 
     def bounds(self, tier):
-        return {"register_sizes": [1, 2, 3], "values": "{-2,-1,0,size-1,size,size+1,0.5,1.0}", "gate_arity": [0, 3],
+        return {"register_sizes": [1, 2, 3] if tier == "quick" else [1, 2, 3, 4, 5],
+                "values": "{-2,-1,0,size-1,size,size+1,0.5,1.0}" + ("" if tier == "quick" else " + {-3,1,size-2,size+2,2*size}"), "gate_arity": [0, 3],
                 "native_situations": len(MODES)}
 
     def all_cases(self, tier):
         seen = set()
-        for label, p, ov, deadline, mode in all_cases_list():
+        for label, p, ov, deadline, mode in all_cases_list(tier):
             key = (render.text(p), ov, mode)
             if key in seen:
                 continue
